@@ -68,6 +68,7 @@ CaseOK(c) ==
     [] c.kind = "load" -> c.ret = LoadBytes(c.file, c.n)
     [] c.kind = "corrupt" -> CorruptOK(c.ret)
     [] c.kind = "audit" -> AuditOK(c)
+    [] c.kind = "actables" -> ACTablesOK(c)
     [] c.kind = "savefail" -> SaveFailOK(c)
     [] c.kind = "range" -> c.claim = HR!Addressed(c.blocks, c.o, c.l)
     [] c.kind = "apiop" -> AL!OpOK([c EXCEPT !.allowed = {c.allowed[i] : i \in DOMAIN c.allowed}])
